@@ -75,8 +75,13 @@ fn wit_text(name: &str, version: Option<&str>, variant: usize) -> String {
     )
 }
 
-fn comp_wat(imports: &[&str], variant: usize) -> String {
+/// `run_import`: the component also imports a function `run` (what the library components export), so that a
+/// spread argument `...s` of an instance of a library component can succeed.
+fn comp_wat(imports: &[&str], variant: usize, run_import: bool) -> String {
     let mut s = String::from("(component\n");
+    if run_import {
+        s.push_str("  (import \"run\" (func (result u32)))\n");
+    }
     for i in imports {
         s.push_str(&format!("  (import \"{i}\" (instance))\n"));
     }
@@ -109,16 +114,18 @@ fn build_library() -> Vec<Pkg> {
     const NONE: &[&str] = &[];
     const ONE: &[&str] = &["dep"];
     const TWO: &[&str] = &["a", "b"];
-    let comps: [(&str, Option<&str>, &'static [&'static str]); 6] = [
+    let comps: [(&str, Option<&str>, &'static [&'static str]); 8] = [
         ("comp:leaf", None, NONE),
         ("comp:leaf", Some("1.0.0"), NONE),
         ("comp:one", None, ONE),
         ("comp:one", Some("0.1.0"), ONE),
         ("comp:two", Some("1.0.0"), TWO),
         ("comp:two", Some("2.0.0"), TWO),
+        ("comp:user", None, ONE),
+        ("comp:user", Some("3.1.4"), ONE),
     ];
     for (i, (n, v, imports)) in comps.iter().enumerate() {
-        let bytes = wat::parse_str(comp_wat(imports, i + 1)).expect("library component assembles");
+        let bytes = wat::parse_str(comp_wat(imports, i + 1, *n == "comp:user")).expect("library component assembles");
         lib.push(Pkg { name: n.to_string(), version: v.map(|v| v.parse().unwrap()), bytes, kind: Kind::Comp(imports) });
     }
     lib
@@ -365,7 +372,7 @@ impl<'l> Gen<'l> {
             }
         }
         let (num, den) = if self.mixed { (1, 2) } else { (1, 9) };
-        if !self.closed && depth > 0 && self.r.chance(num, den * 2) {
+        if !self.closed && depth > 0 && self.r.chance(num, den * 4) {
             // a named argument the component does not import: its expression is evaluated all the same
             let n = self.id("k");
             let e = self.arg_expr(depth);
@@ -388,9 +395,19 @@ impl<'l> Gen<'l> {
                 let s = self.r.pick(&self.insts).clone();
                 args.insert(pos, s);
             }
-            if !args.is_empty() && self.r.chance(num, den * 2) {
+            if !args.is_empty() && self.r.chance(num, den * 3) {
                 let pos = self.r.below(args.len() as u64) as usize;
                 args.insert(pos, "...".to_string());
+            }
+        }
+        if c.name == "comp:user" && !args.iter().any(|a| a.starts_with("...") && a.len() > 3) {
+            let pos = self.r.below(args.len() as u64 + 1) as usize;
+            if !self.insts.is_empty() && self.r.chance(2, 3) {
+                let s = self.r.pick(&self.insts).clone();
+                args.insert(pos, format!("...{s}"));
+            } else {
+                let leaf = if self.r.chance(1, 2) { "comp:leaf" } else { "comp:leaf@1.0.0" };
+                args.insert(pos, format!("run: (new {leaf} {{}}).run"));
             }
         }
         if omitted || (!self.closed && self.r.chance(1, 10)) {
@@ -588,6 +605,8 @@ fn edge_docs() -> Vec<(&'static str, String)> {
         ("missing-export", "package test:own;\ninterface i { use lib:aaa/nope.{t}; use lib:ccc/api.{t}; }\n"),
         ("postfix-only", "package test:own;\nlet a = new comp:leaf {};\nlet f = a.run;\nexport f as g;\n"),
         ("spread-inferred", "package test:own;\nlet dep = new comp:leaf {};\nlet a = new comp:one { dep };\nlet b = new comp:one@0.1.0 { ...a, ... };\nexport a as out;\n"),
+        ("spread-ok-then-named-new", "package test:own;\nlet s = new comp:leaf {};\nlet a = new comp:user { ...s, dep: new comp:leaf@1.0.0 {} };\nexport a as out;\n"),
+        ("spread-ok-then-named-paren-new", "package test:own;\nlet s = new comp:leaf@1.0.0 {};\nexport new comp:user@3.1.4 { ...s, \"dep\": ((new comp:one { dep: s })) } as e;\n"),
         ("spread-then-named-new", "package test:own;\nlet s = new comp:leaf {};\nlet a = new comp:two@1.0.0 { ...s, a: new comp:leaf@1.0.0 {}, b: s };\n"),
         ("spread-then-named-paren-new", "package test:own;\nlet s = new comp:leaf {};\nexport new comp:one { ...s, \"dep\": ((new comp:one@0.1.0 { dep: s })) } as e;\n"),
         ("fill-then-named-new", "package test:own;\nlet a = new comp:two@2.0.0 { ..., a: new comp:leaf@1.0.0 {}, b: new comp:leaf {} };\n"),
